@@ -28,7 +28,7 @@ def cell_to_py(c, dt: str):
         return -math.inf
     if dt == "object":
         return int(c)
-    if dt.startswith(("int", "uint")):
+    if dt.startswith(("int", "uint", "datetime64", "timedelta64", "<U")):
         return int(c)
     if dt == "bool":
         return bool(c)
@@ -143,7 +143,11 @@ def handle(p):
                 elif kind == "set3d":
                     c.array_3d = build_array(o["arr"])
                 elif kind == "update":
-                    c.update(None if o["arr"] is None else build_array(o["arr"]))
+                    if o["arr"] is not None and o.get("via") == "list":
+                        # a nested Python list of the same values: np.asarray gives float64 / int64 / bool back
+                        c.update(build_array(o["arr"]).tolist())
+                    else:
+                        c.update(None if o["arr"] is None else build_array(o["arr"]))
                 elif kind == "iadd":
                     a = build_array(o["arr"])
                     if o.get("via") == "detector" and bucket != "phase":
